@@ -763,6 +763,328 @@ class JumpGen:
 
 
 # ---------------------------------------------------------------------------------------------------------------------
+# data-flow programs: every read of a function-local variable / argument reaches an observable sink
+#
+# The grammar-directed generators above draw assignment targets and reads from one large pool and have almost no
+# value-dependent effects inside expressions, so a variable whose value is *observably* read at exactly one kind of
+# syntactic site (only in its own update, only in a loop condition, only as a callee, only deep inside a call argument ...)
+# practically never occurs there.  That is the class a wrong 'Unused variable / argument' warning lives in: lint decides
+# "used" purely from where reads occur.  The two families below make the read site the generated dimension and route
+# every read into a sink (log line, global array, global variable, result, error), so that the rename oracle sees it.
+# ---------------------------------------------------------------------------------------------------------------------
+
+FLOW_HEAD = ['trace = arrayNew()',
+             'function note(v):',                       # logs and records its argument, returns it
+             '    arrayPush(trace, v)',
+             "    systemLog('note ' + jsonStringify(v))",
+             '    return v',
+             'endfunction',
+             'function twice(f, v):',                   # calls its first argument
+             '    return f(f(v))',
+             'endfunction']
+
+# expression contexts around ONE read of the variable (each exercises another branch of the use scan)
+FLOW_WRAPS = [
+    ('bare', '{v}'), ('group', '({v})'), ('not', '!{v}'), ('neg', '-{v}'), ('bin-left', '{v} + 1'), ('bin-right', "'<' + {v}"),
+    ('cmp', '{v} == 7'), ('and', '{v} && 1'), ('or', '0 || {v}'), ('if-cond', 'if({v}, 1, 2)'), ('if-value', 'if(true, {v}, 0)'),
+    ('arg-2nd', 'arrayNew(0, {v})'), ('arg-nested', 'note({v})'), ('deep', '(1 + -(({v}) * 2))'), ('obj', "objectNew('k', {v})"),
+    ('both-sides', '{v} + {v}'), ('user-arg', 'twice(note, {v})'),
+]
+
+# read sites ({V} the variable, {E} a wrapped read of it); every site makes the value read observable
+FLOW_SITES = [
+    ('self-update-call', ['{V} = note({E})']),
+    ('self-update-chain', ['{V} = note({E})', '{V} = note({V})']),
+    ('self-update-lib', ["{V} = systemGlobalSet('gOut', {E})"]),
+    ('self-update-push', ['{V} = arrayPush(trace, {E})']),
+    ('self-update-then-pure', ['{V} = note({E})', '{V} = {V} + 1']),
+    ('other-assign', ['w = {E}', 'note(w)']),
+    ('return', ['return {E}']),
+    ('call-stmt', ['note({E})']),
+    ('lib-stmt', ["systemGlobalSet('gOut', {E})"]),
+    ('if-cond', ['if {E}:', "    note('then')", 'else:', "    note('else')", 'endif']),
+    ('elif-cond', ['if gc:', "    note('then')", 'elif {E}:', "    note('elif')", 'else:', "    note('else')", 'endif']),
+    ('while-cond', ['k = 0', 'while {E} && k < 2:', '    k = k + 1', '    note(k)', 'endwhile']),
+    ('jumpif-cond', ['jumpif ({E}) flowSkip', "note('fall')", 'flowSkip:']),
+    ('for-values', ['for e in arrayNew({E}, 0):', '    note(e)', 'endfor']),
+]
+# sites in which the variable holds a function and is read in callee position
+FLOW_CALLEE_SITES = [
+    ('callee-stmt', ["{V}('called')"]),
+    ('callee-self-update', ["{V} = {V}('called')"]),
+    ('callee-return', ["return {V}('called')"]),
+    ('callee-nested', ["note(1 + {V}('called'))"]),
+    ('callee-passed', ['twice({V}, 1)']),
+]
+# how the variable is bound: (kind, parameter list, actual arguments, binding lines, (loop header, footer) around the sites)
+FLOW_BINDS = [
+    ('local', '', '', ['{V} = {VAL}'], None),
+    ('local-twice', '', '', ['{V} = 1', '{V} = {VAL}'], None),
+    ('local-conditional', '', '', ['if ga:', '    {V} = {VAL}', 'endif'], None),
+    ('arg', '{V}', '{VAL}', [], None),
+    ('arg-2nd', 'p, {V}', '0, {VAL}', ['note(p)'], None),
+    ('arg-reassigned', '{V}', '1', ['{V} = {VAL}'], None),
+    ('arg-rest', 'p, {V}...', '0, {VAL}', ['note(p)'], None),
+    ('for-value', '', '', [], ('for {V} in arrayNew({VAL}, {VAL}):', 'endfor')),
+    ('for-index', '', '', [], ('for fe, {V} in arrayNew({VAL}, {VAL}):', 'endfor')),
+]
+
+
+def flow_program(vname, bind, site, wrap, loop_carried=False, callee=False):
+    """One function `work` with the variable bound as `bind`, read once at `site` inside the expression context `wrap`, next
+    to a variable that really is unused."""
+    _, params, actuals, bind_lines, around = bind
+    val = 'note' if callee else '7'
+    sub = {'V': vname, 'VAL': val}
+    sub['E'] = wrap[1].format(v=vname)
+    site_lines = [ln.format(**sub) for ln in site[1]]
+    bind_lines = [ln.format(**sub) for ln in bind_lines]
+    body = ['spare = 99']
+    if around:
+        body += [around[0].format(**sub)] + ['    ' + ln for ln in site_lines] + [around[1]]
+    elif loop_carried:
+        # the read precedes the binding textually and is reached on the second turn of a loop
+        body += ['turn = 0', 'while turn < 2:'] + ['    ' + ln for ln in site_lines + bind_lines] + ['    turn = turn + 1', 'endwhile']
+    else:
+        body += bind_lines + site_lines
+    lines = FLOW_HEAD + [f'function work({params.format(**sub)}):'] + ['    ' + ln for ln in body] + ["    return 'end'", 'endfunction',
+                                                                                                  f'systemLog(jsonStringify(work({actuals.format(**sub)})))']
+    return '\n'.join(lines) + '\n'
+
+
+def flow_matrix(rng, full):
+    """(id, source) of the read-site matrix: variable name x binding x site x expression context x textual order.
+    `full` = the whole product; otherwise all pairs with the third dimension at its default, plus a random sample of the rest."""
+    names = ['cur', 'x']        # 'x' is also a global of the run: a renamed binding leaves the reads to the global
+    out = []
+    for vname in names:
+        for bind in FLOW_BINDS:
+            for site in FLOW_SITES:
+                for wrap in FLOW_WRAPS:
+                    for carried in (False, True):
+                        if carried and not bind[0].startswith('local'):
+                            continue
+                        defaults = (vname == 'cur') + (bind[0] == 'local') + (site[0] == 'self-update-call') + (wrap[0] == 'bare') + (not carried)
+                        if full or defaults >= 3 or rng.random() < 0.04:
+                            out.append((f'flow:{vname}:{bind[0]}:{site[0]}:{wrap[0]}:{"carried" if carried else "after"}',
+                                        flow_program(vname, bind, site, wrap, carried)))
+            for site in FLOW_CALLEE_SITES:
+                for carried in (False, True):
+                    if bind[0] in ('arg-rest', 'for-index') or (carried and not bind[0].startswith('local')):
+                        continue
+                    out.append((f'flow:{vname}:{bind[0]}:{site[0]}:callee:{"carried" if carried else "after"}',
+                                flow_program(vname, bind, site, ('callee', '{v}'), carried, callee=True)))
+    return out
+
+
+class FlowGen:
+    """Random data-flow functions over a small variable pool.  Every variable has a *read profile*: the set of site kinds at
+    which it may be read (often a single one, sometimes none); expressions are built from reads, sinks and calls."""
+
+    KINDS = ['self', 'other', 'return', 'cond', 'stmt', 'callee']
+
+    def __init__(self, rng):
+        self.rng = rng
+        self.label_n = 0
+
+    def profile(self):
+        r = self.rng
+        k = r.random()
+        if k < 0.12:
+            return set()                                   # never read: lint must say so, renaming must not matter
+        if k < 0.55:
+            return {r.choice(self.KINDS[:5])}
+        if k < 0.62:
+            return {'callee'} | ({'self'} if r.random() < 0.5 else set())
+        return {x for x in self.KINDS[:5] if r.random() < 0.5} or {'stmt'}
+
+    def readable(self, kind, target=None):
+        """variables whose profile allows a read at a site of this kind (a 'self' read only in an assignment to itself)"""
+        out = []
+        for v, prof in self.profiles.items():
+            if v in self.fnvars:
+                continue
+            if kind == 'self':
+                if v == target and 'self' in prof:
+                    out.append(v)
+            elif kind in prof:
+                out.append(v)
+        return out
+
+    def leaf(self, kind, target):
+        r = self.rng
+        pool = self.readable(kind, target)
+        if pool and r.random() < 0.8:
+            return r.choice(pool)
+        return r.choice(['1', '2', '7', 'true', 'ga', 'gb', 'null'])
+
+    def expr(self, kind, target=None, depth=0):
+        r = self.rng
+        k = r.random()
+        if depth >= 3 or k < 0.30:
+            return self.leaf(kind, target)
+        sub = lambda: self.expr(kind, target, depth + 1)   # noqa: E731
+        if k < 0.45:
+            return f'note({sub()})'
+        if k < 0.55:
+            return f'{sub()} {r.choice(["+", "-", "*", "&&", "||", "==", "<"])} {sub()}'
+        if k < 0.61:
+            return f'{r.choice(["!", "-"])}{self.leaf(kind, target)}'
+        if k < 0.66:
+            return f'({sub()})'
+        if k < 0.72:
+            return f'if({sub()}, {sub()}, {sub()})'
+        if k < 0.78:
+            n = r.randint(1, 3)     # a call argument at any position; one element is handed on (values never grow: a loop that
+            return f'arrayGet(arrayNew({", ".join(sub() for _ in range(n))}), {r.randrange(n)})'   # runs into the budget stays cheap)
+        if k < 0.83:
+            return f"systemGlobalSet('gOut', {sub()})"
+        if k < 0.87:
+            return f'arrayLength(arrayPush(trace, {sub()}))'     # (never hands out `trace` itself: no cyclic arrays)
+        if k < 0.91 and self.helper:
+            return f'{self.helper}({", ".join(sub() for _ in range(r.randint(0, 2)))})'
+        callees = [v for v in self.fnvars if (kind == 'self' and v == target and 'self' in self.profiles[v]) or
+                   (kind != 'self' and 'callee' in self.profiles[v])]
+        if k < 0.95:
+            return f'twice({r.choice(callees) if callees and r.random() < 0.5 else "note"}, {sub()})'
+        if callees:
+            return f'{r.choice(callees)}({sub()})'
+        return f'note({sub()})'
+
+    def stmts(self, n, depth, in_loop):
+        r = self.rng
+        out = []
+        ind = '    ' * depth
+        for _ in range(n):
+            k = r.random()
+            if k < 0.34:
+                t = r.choice(self.pool)
+                if t in self.fnvars:
+                    out.append(f'{ind}{t} = ' + (r.choice(['note', 'note', self.helper or 'note']) if r.random() < 0.7 else
+                                                 f"{t}({self.expr('self', t, 2)})" if 'self' in self.profiles[t] else 'note'))
+                else:
+                    kind = 'self' if ('self' in self.profiles[t] and r.random() < 0.6) else 'other'
+                    out.append(f'{ind}{t} = {self.expr(kind, t)}')
+            elif k < 0.50:
+                out.append(f"{ind}{self.expr('stmt', None, 0) if r.random() < 0.5 else 'note(' + self.expr('stmt', None, 1) + ')'}")
+            elif k < 0.60 and depth < 3:
+                out.append(f"{ind}if {self.expr('cond', None, 1)}:")
+                out += self.stmts(r.randint(1, 3), depth + 1, in_loop)
+                if r.random() < 0.4:
+                    out.append(f"{ind}elif {self.expr('cond', None, 1)}:")
+                    out += self.stmts(r.randint(1, 2), depth + 1, in_loop)
+                if r.random() < 0.4:
+                    out.append(f'{ind}else:')
+                    out += self.stmts(r.randint(1, 2), depth + 1, in_loop)
+                out.append(f'{ind}endif')
+            elif k < 0.68 and depth < 3:
+                self.label_n += 1
+                c = f'turn{self.label_n}'
+                out.append(f'{ind}{c} = 0')
+                cond = f' && {self.expr("cond", None, 2)}' if r.random() < 0.3 else ''
+                out.append(f'{ind}while {c} < 2{cond}:')
+                out += self.stmts(r.randint(1, 3), depth + 1, True)
+                out.append(f'{ind}    {c} = {c} + 1')
+                out.append(f'{ind}endwhile')
+            elif k < 0.75 and depth < 3:
+                head = r.choice(self.pool) + (', ' + r.choice(self.pool) if r.random() < 0.3 else '')
+                if any(h.strip() in self.fnvars for h in head.split(',')) or len(set(h.strip() for h in head.split(','))) < len(head.split(',')):
+                    head = 'fe'
+                out.append(f"{ind}for {head} in arrayNew({self.expr('other', None, 2)}, {r.choice(['3', '4'])}):")
+                out += self.stmts(r.randint(1, 3), depth + 1, True)
+                out.append(f'{ind}endfor')
+            elif k < 0.79 and in_loop:
+                out.append(ind + r.choice(['break', 'continue']))
+            elif k < 0.86:
+                out.append(f"{ind}return {self.expr('return', None, 1)}")
+            elif k < 0.92:
+                self.label_n += 1
+                lab = f'flowL{self.label_n}'
+                out.append(f"{ind}jumpif ({self.expr('cond', None, 1)}) {lab}")
+                out += self.stmts(r.randint(0, 2), depth, in_loop)
+                out.append(f'{ind}{lab}:')
+            else:
+                t = r.choice(self.pool)
+                if t in self.fnvars:
+                    out.append(f'{ind}{t} = note')
+                else:
+                    out.append(f'{ind}{t} = {r.choice(["3", "4", "5", "6"])}')
+        return out
+
+    def function(self, name, helper):
+        r = self.rng
+        self.helper = helper
+        locals_ = r.sample(['u', 'v', 'w', 'x', 'ga', 'cnt'], r.randint(1, 3))
+        args = r.sample(['p', 'q', 'a'], r.choice([0, 1, 1, 2]))
+        self.pool = locals_ + args
+        self.profiles = {v: self.profile() for v in self.pool}
+        self.fnvars = {v for v in self.pool if 'callee' in self.profiles[v]}
+        body = []
+        for v in locals_:
+            if r.random() < 0.7:     # most locals are bound before anything reads them; the others are bound later / in a loop
+                body.append(f'    {v} = ' + ('note' if v in self.fnvars else r.choice(['3', '4', '5', '6'])))
+        body += self.stmts(r.randint(2, 7), 1, False)
+        if r.random() < 0.6:
+            body.append(f"    return {self.expr('return', None, 1)}")
+        dots = '...' if args and r.random() < 0.1 else ''
+        actuals = ['note' if a in self.fnvars else r.choice(['8', '9', 'false']) for a in args]
+        return [f'function {name}({", ".join(args)}{dots}):'] + body + ['endfunction'], actuals
+
+    def script(self):
+        r = self.rng
+        lines = list(FLOW_HEAD)
+        helper = None
+        if r.random() < 0.4:
+            fn, _ = self.function('aux', None)
+            lines += fn
+            helper = 'aux'
+        fn, actuals = self.function('work', helper)
+        lines += fn
+        lines.append(f'systemLog(jsonStringify(work({", ".join(actuals)})))')
+        if r.random() < 0.3:
+            lines.append(f'systemLog(jsonStringify(work({", ".join(reversed(actuals))})))')
+        return '\n'.join(lines) + '\n'
+
+
+def flow_random_cases(rng, n):
+    parser = fw.impl()['parser']
+    out = []
+    tries = 0
+    while len(out) < n and tries < 3 * n:
+        tries += 1
+        text = FlowGen(rng).script()
+        try:
+            out.append((text, parser.parse_script(text)))
+        except parser.BareScriptParserError:
+            continue
+    return out
+
+
+def binding_liveness(model, stats):
+    """For every variable assigned in / argument of a top-level function: does renaming its binding sites change the run?
+    (That is the observable meaning of 'used'; a warning for such a variable is what the semantic oracle rejects.)
+    -> number of bindings whose renaming is observable."""
+    base = None
+    live = 0
+    for ix, st in enumerate(model['statements']):
+        if 'function' not in st:
+            continue
+        fn = st['function']
+        assigned = sorted({s['expr']['name'] for s in fn['statements'] if 'expr' in s and 'name' in s['expr']})
+        for kind, names in (('unused-var', assigned), ('unused-arg', sorted(set(fn.get('args') or [])))):
+            for nm in names:
+                ed = apply_edit(model, {'kind': kind, 'scope': ix, 'name': nm})
+                if ed is None:
+                    continue
+                if base is None:
+                    base = run_model(model, BUDGET)
+                stats['liveness-runs'] = stats.get('liveness-runs', 0) + 1
+                if not same_run(base, run_model(ed[0], BUDGET)):
+                    live += 1
+    return live
+
+
+# ---------------------------------------------------------------------------------------------------------------------
 # streams
 # ---------------------------------------------------------------------------------------------------------------------
 
@@ -863,8 +1185,8 @@ def tags_of(parsed, model):
     return tags
 
 
-def run_cases(ctx, name, rule, cases, semantic_cap=8):
-    """cases: [(case id / text, model)]"""
+def run_cases(ctx, name, rule, cases, semantic_cap=8, liveness=False):
+    """cases: [(case id / text, model)]; liveness: non-trivial = some binding of the case is observably used"""
     st = ctx.stream(name, rule)
     stats = {}
     models = []
@@ -901,7 +1223,16 @@ def run_cases(ctx, name, rule, cases, semantic_cap=8):
         model_out = resp.get('warnings', resp)
         ctx.compare(name, {'case': cid, 'model': model}, impl_out, model_out)
         parsed = parse_warnings(model, impl_out) if isinstance(impl_out, list) else []
-        st.case(canon_script(model), nontrivial=bool(parsed), tags=tags_of(parsed, model))
+        tags = tags_of(parsed, model)
+        nontrivial = bool(parsed)
+        if liveness:
+            live = binding_liveness(model, stats)
+            nontrivial = live > 0
+            tags.append('live-bindings%d' % min(live, 4))
+            if isinstance(cid, str) and cid.startswith('flow:'):
+                _, _, bind, site, wrap, order = cid.split(':')
+                tags += ['bind:' + bind, 'site:' + site, 'wrap:' + wrap, 'order:' + order] if live else ['site-not-observable']
+        st.case(canon_script(model), nontrivial=nontrivial, tags=tags)
     for k, v in sorted(stats.items()):
         st.hist['stat:' + k] = st.hist.get('stat:' + k, 0) + v
     return st
@@ -959,6 +1290,28 @@ def streams(ctx):
               'statements, includes; non-trivial = at least one warning',
               [(f'jump{i}', JumpGen(rng).model()) for i in range(ctx.scale(3500, 40000))])
 
+    rng = ctx.rng('lint-flow-sites')
+    flow = []
+    for cid, text in flow_matrix(rng, full=not ctx.quick):
+        flow.append((cid, fw.impl()['parser'].parse_script(text)))
+    run_cases(ctx, 'lint-flow-sites', 'read-site matrix: one function-local variable or argument (plain name / name shared with a global) x '
+              'how it is bound (assigned once / twice / under a condition, 1st / 2nd / rest / re-assigned argument, for-loop value / '
+              'index) x the ONE site that reads it (its own update through a user / library call, a chain of own updates, another '
+              "variable's assignment, return, call statement, if / elif / while / jumpif condition, for-loop values, callee position) x "
+              'the expression context of the read (bare, group, unary, either side of a binary, call argument at any position / depth, '
+              'builtin if) x textual order (read after the binding / before it, reached on the next turn of a loop); every read flows into '
+              'a log line, a global or the result, and a genuinely unused variable stands next to it; quick = all pairs of dimensions + a '
+              'sample, thorough = the full product; non-trivial = renaming the binding of at least one variable changes the run '
+              '(lint may not call it unused)', flow, semantic_cap=1000, liveness=True)
+
+    rng = ctx.rng('lint-flow-random')
+    run_cases(ctx, 'lint-flow-random', 'random data-flow functions over a pool of 1-3 locals and 0-2 arguments, each with a read profile '
+              '(never read / read only at one kind of site: own updates, other assignments, return, conditions, call statements, callee '
+              'position / any mix); expressions route reads through sinks (logging user function, systemGlobalSet, arrayPush on a '
+              'global array, a helper function, function-valued variables) inside if / elif / while / for / jumpif / break / continue; '
+              'non-trivial = renaming the binding of at least one variable changes the run',
+              flow_random_cases(rng, ctx.scale(1500, 12000)), semantic_cap=1000, liveness=True)
+
     run_cases(ctx, 'lint-pointless-shapes', 'ALL unassigned expression statements whose expression is a tree of depth <= 2 (thorough: 3) over '
               '{variable, number, call bump(), group, unary -, unary !, binary + and &&} with at most 3 leaves, in a script that defines '
               'bump (logs and counts), at top level and inside a function: pointless iff the tree holds no call; every reported '
@@ -989,7 +1342,7 @@ def streams(ctx):
     run_cases(ctx, 'lint-nested', 'jump-level models in which function bodies may contain function statements (finding F19: lint does '
               'not look inside them); the model mirrors the non-descending behaviour; non-trivial = at least one warning', nested,
               semantic_cap=3)
-    for name in ('lint-corpus', 'lint-structured', 'lint-jump', 'lint-nested', 'lint-pointless-shapes'):
+    for name in ('lint-corpus', 'lint-structured', 'lint-jump', 'lint-nested', 'lint-pointless-shapes', 'lint-flow-sites', 'lint-flow-random'):
         ctx.streams[name].exhaustive = False
 
 
